@@ -33,7 +33,14 @@ def parseTws (j : Json) (k : String) : R (List TW) := do
   if l.isEmpty then return [⟨0, none⟩] else return l.map (fun p => ⟨p.1, some p.2⟩)
 
 def parsePlace (j : Json) : R Place := do
-  return { loc := ← natF j "loc", dur := ← intF j "dur", tws := ← parseTws j "tws", tag := ← optNull asStr j "tag" }
+  return { loc := ← natF j "loc", dur := ← intF j "dur", tws := ← parseTws j "tws", tag := ← optNull asStr j "tag",
+           resource := ← optNull asStr j "resource" }
+
+/-- a shared reload resource: `[id, capacity]` (serde form of a pair) -/
+def parseResource (j : Json) : R (String × Load) := do
+  let a ← asArr j
+  if a.size != 2 then throw "resource: [id, capacity] expected"
+  return (← asStr a[0]!, ← listOf asInt a[1]!)
 
 def parseTask (j : Json) : R Task := do
   return { kind := ← parseTKind (← strF j "kind"), places := ← listF parsePlace j "places", demand := ← listF asInt j "demand" }
@@ -80,8 +87,12 @@ def parseProfile (j : Json) : R Profile := do
   return { dur := ← listF asInt j "dur", dist := ← listF asInt j "dist" }
 
 def parseProblem (j : Json) : R Problem := do
+  -- `resources` is absent in cases stored before shared resources were generated
+  let resources ← match j.getObjVal? "resources" with
+    | .ok r => listOf parseResource r
+    | .error _ => pure []
   return { n := ← natF j "n", profiles := ← listF parseProfile j "profiles", jobs := ← listF parseJob j "jobs",
-           vehicles := ← listF parseVType j "vehicles", relations := ← listF parseRelation j "relations" }
+           vehicles := ← listF parseVType j "vehicles", relations := ← listF parseRelation j "relations", resources }
 
 def parseAct (j : Json) : R Act := do
   let st ← optNull asInt j "start"
@@ -142,6 +153,10 @@ def applyPatch (sp sol m : Json) : R (Json × Json) := do
   | _ => pure ()
   match m.getObjVal? "rel" with
   | .ok r => sp := sp.setObjVal! "relations" r
+  | _ => pure ()
+  -- "res": the list of shared resources of the problem is replaced
+  match m.getObjVal? "res" with
+  | .ok r => sp := sp.setObjVal! "resources" r
   | _ => pure ()
   return (sp, sol)
 
